@@ -142,6 +142,26 @@ def run(R):
                 R.viol("C09.accept", "unknown-kind:%s" % v, "RecordKind::%s is not in the rule table" % v, sr, sr.lines[0])
         R.inst("C09.accept", "K7 table agreement", "store_replicated_in_record: one storing arm per payment-free kind, none for with-payment kinds", len(tab), ok, {"arms": tab})
 
+    # (4b) mutable kinds are always handed to their merge/validate function: the only accepting outcome of those arms is that
+    #      function's verdict (an early `Ok(())` would leave two replicas with different versions un-merged)
+    if sr is not None and arms:
+        n = 0
+        okb = True
+        for v, want in ARMS[SRIR].items():
+            if want in (None, "chunk"):
+                continue  # chunks are immutable: "already held" is a legitimate early Ok
+            starts = tuple(arms.get(v, ()))
+            if not starts:
+                continue
+            n += 1
+            stores = set(b for b in any_store.blocks(sr) if b in g.reach(starts))
+            early = [b for b in RetSink("Ok").blocks(sr) if b in g.reach(starts, avoid=stores)]
+            if early:
+                okb = False
+                R.viol("C09.accept.no-bypass", "early-ok:%s" % v, "replicated RecordKind::%s can be acknowledged (Ok) without reaching %s: a differing version held by a neighbour is not merged"
+                       % (v, STORE[want].split("::")[-1]), sr, g.term(early[0]).get("l"))
+        R.inst("C09.accept.no-bypass", "K5 must-follow", "mutable kinds: every accepting path of the replication arm goes through the merge/validate-and-store function", n, okb)
+
     # (5) version-aware presence test
     addk = R.body("C09.versions", ADDK)
     if addk is not None:
